@@ -207,6 +207,10 @@ pub struct RunStats {
     pub main_stack_len: u64,
     pub main_live_objects: u64,
     pub main_heap_size: u64,
+    /// bytes allocated by the process between creating the runtime and the end of the run, still live at the
+    /// end (the runtime not yet dropped): everything every task of the runtime still holds, plus the run's log
+    #[serde(default)]
+    pub runtime_live_bytes: i64,
 }
 
 #[derive(Serialize, Deserialize, Clone, Debug, PartialEq)]
